@@ -133,10 +133,42 @@ func Ite(c, a, b Term) Term {
 	}
 	return app(a.Sort, "ite", c, a, b)
 }
-func Lt(a, b Term) Term  { return app(SBool, "<", a, b) }
-func Le(a, b Term) Term  { return app(SBool, "<=", a, b) }
-func Gt(a, b Term) Term  { return app(SBool, ">", a, b) }
-func Ge(a, b Term) Term  { return app(SBool, ">=", a, b) }
+// small-integer literal value of a term ("17", "(- 3)")
+func litVal(t Term) (int64, bool) {
+	s := t.S
+	neg := false
+	if strings.HasPrefix(s, "(- ") && strings.HasSuffix(s, ")") && !strings.Contains(s[3:], " ") {
+		neg = true
+		s = s[3 : len(s)-1]
+	}
+	if s == "" || len(s) > 15 {
+		return 0, false
+	}
+	var n int64
+	for _, c := range s {
+		if c < '0' || c > '9' {
+			return 0, false
+		}
+		n = n*10 + int64(c-'0')
+	}
+	if neg {
+		n = -n
+	}
+	return n, true
+}
+
+func cmpFold(op string, a, b Term, f func(x, y int64) bool) Term {
+	if x, ok := litVal(a); ok {
+		if y, ok := litVal(b); ok {
+			return B(f(x, y))
+		}
+	}
+	return app(SBool, op, a, b)
+}
+func Lt(a, b Term) Term { return cmpFold("<", a, b, func(x, y int64) bool { return x < y }) }
+func Le(a, b Term) Term { return cmpFold("<=", a, b, func(x, y int64) bool { return x <= y }) }
+func Gt(a, b Term) Term { return cmpFold(">", a, b, func(x, y int64) bool { return x > y }) }
+func Ge(a, b Term) Term { return cmpFold(">=", a, b, func(x, y int64) bool { return x >= y }) }
 func Add(a, b Term) Term {
 	if a.S == "0" {
 		return b
@@ -144,15 +176,32 @@ func Add(a, b Term) Term {
 	if b.S == "0" {
 		return a
 	}
+	if x, ok := litVal(a); ok {
+		if y, ok := litVal(b); ok {
+			return I(x + y)
+		}
+	}
 	return app(SInt, "+", a, b)
 }
 func Sub(a, b Term) Term {
 	if b.S == "0" {
 		return a
 	}
+	if x, ok := litVal(a); ok {
+		if y, ok := litVal(b); ok {
+			return I(x - y)
+		}
+	}
 	return app(SInt, "-", a, b)
 }
-func Mul(a, b Term) Term { return app(SInt, "*", a, b) }
+func Mul(a, b Term) Term {
+	if x, ok := litVal(a); ok {
+		if y, ok := litVal(b); ok && x > -(1<<30) && x < 1<<30 && y > -(1<<30) && y < 1<<30 {
+			return I(x * y)
+		}
+	}
+	return app(SInt, "*", a, b)
+}
 
 // Go semantics for / and % truncate toward zero; SMT div/mod are Euclidean.
 func GoDiv(a, b Term) Term {
